@@ -31,6 +31,15 @@ func SeedFromEnv() int64 {
 	return 1
 }
 
+// OutRoot is where .run and evidence are written: /verif, or a scratch directory
+// when checks are run against a mutated copy of the repository.
+func OutRoot() string {
+	if r := os.Getenv("VERIF_SCRATCH"); r != "" {
+		return r
+	}
+	return VerifRoot()
+}
+
 type knownFinding struct {
 	Status    string `json:"status"` // "known" | "fixed"
 	Property  string `json:"property"`
@@ -150,7 +159,7 @@ func RunParent(id, tier string) int {
 	}
 	start := time.Now()
 	seed := SeedFromEnv()
-	dir := filepath.Join(VerifRoot(), ".run", id)
+	dir := filepath.Join(OutRoot(), ".run", id)
 	os.RemoveAll(dir)
 	os.MkdirAll(filepath.Join(dir, "replay"), 0o755)
 	base := 1
@@ -396,8 +405,8 @@ func RunParent(id, tier string) int {
 		"wall_s":      time.Since(start).Seconds(),
 		"violations":  len(fresh),
 	}
-	os.MkdirAll(filepath.Join(VerifRoot(), "evidence"), 0o755)
-	if err := writeJSON(filepath.Join(VerifRoot(), "evidence", id+".json"), ev); err != nil {
+	os.MkdirAll(filepath.Join(OutRoot(), "evidence"), 0o755)
+	if err := writeJSON(filepath.Join(OutRoot(), "evidence", id+".json"), ev); err != nil {
 		fmt.Fprintln(os.Stderr, "cannot write evidence:", err)
 		return 2
 	}
@@ -565,7 +574,7 @@ func RunReplay(path string) int {
 		fmt.Fprintln(os.Stderr, "unknown property", v.Property)
 		return 2
 	}
-	dir := filepath.Join(VerifRoot(), ".run", v.Property+"-replay")
+	dir := filepath.Join(OutRoot(), ".run", v.Property+"-replay")
 	os.RemoveAll(dir)
 	os.MkdirAll(dir, 0o755)
 	tier := "quick"
